@@ -38,6 +38,10 @@ type Grammar struct {
 	// bound grammar rejects further binding and lets the transformer skip the
 	// unbound-placeholder walk.
 	paramsBound bool
+	// bindFailed records that BindParams gave up part-way: the placeholders before
+	// the rejected parameter already hold values, so the grammar must not be bound
+	// again (the remaining placeholders would pass for the whole statement).
+	bindFailed bool
 }
 
 // GrammarSelectStatement represents a SELECT statement in Participle grammar.
